@@ -118,11 +118,30 @@ def spec_fails(W, spec) -> bool:
     return False
 
 
+def rejected_probe(rng, W, spec, others: list, pv: int = 2) -> list:
+    """A spec odc-geo rejects today is built into variable 6 (never used otherwise) and then *used*: compared both
+    ways with other variables, .epsg read, pickled, a transformer requested.  On the tree as it is every one of
+    these steps answers "no such variable" in model and code alike; if the spec starts being accepted the
+    correspondence breaks and the oracles judge the value that came out against pyproj."""
+    ops = spec_ops(W, spec, 6, pv)
+    for x in others[:3]:
+        ops += [["eq", 6, x], ["eq", x, 6]]
+    ops += [["ep", 6], ["pk", 7, 6], ["eq", 6, 7], ["mc", 7, 6], ["eq", 7, 6]]
+    for x in others[:2]:
+        ops += [["tr", 6, x, True], ["eq", 7, x]]
+    ops += [["dr", 6], ["dr", 7]]
+    if ops[0][0] in ("pt", "pe"):
+        ops.append(["pd", pv])
+    return ops
+
+
 def gen_history(rng, W, nops: int, nseg: int) -> list:
     ops: list = []
     for _ in range(nseg):
         codes = rng.sample(W.codes, rng.choice([1, 2, 3]))
         pool = [s for c in codes for s in W.lossless[c]]
+        exo = [s for c in codes for s in W.exotic.get(c, [])]
+        pool += exo + exo   # compound / 3-D / bound spellings of the segment's systems
         lossy = [("str", n) for n in sorted(W.lossy_names)]
         live: set = set()
         plive: set = set()
@@ -134,8 +153,11 @@ def gen_history(rng, W, nops: int, nseg: int) -> list:
                 spec = rng.choice(lossy) if q < 0.12 else (
                     rng.choice([("str", W.bad_names[0]), ("str", W.bad_names[1]), ("int", 999999)]) if q < 0.16
                     else rng.choice(pool))
+                if W.rejected(spec):
+                    ops += rejected_probe(rng, W, spec, rng.sample(sorted(live), len(live)))
+                    continue
                 v = rng.randint(0, 5)
-                pv = rng.randint(0, 2)
+                pv = rng.randint(0, 1)
                 new = spec_ops(W, spec, v, pv)
                 ops += new
                 if new[0][0] in ("pt", "pe"):
@@ -268,6 +290,10 @@ def judge_records(R: Run, W, ops: list, res: dict, fresh: Dict[str, set], hist_i
             R.oracle(ok, key, {**case_base, "spec": rec["spec"]},
                      f"CRS {k} of CRS({rec['spec']}): eq={rec['eq']} str_same={rec['str_same']} "
                      f"hash_same={rec['hash_same']} token_same={rec['tok_same']}")
+        elif k == "epsg":
+            R.oracle(rec["got"] == rec["want"], "crs-epsg-differs-from-pyproj", {**case_base, "spec": rec["spec"]},
+                     f"CRS({rec['spec']}).epsg is {rec['got']} but pyproj's to_epsg() of the same specification is "
+                     f"{rec['want']}")
         elif k == "tr":
             R.oracle(rec["ok"], "transformer-converts-wrong-systems",
                      {**case_base, "a": rec["a"], "b": rec["b"], "xy": rec["xy"]},
@@ -283,7 +309,9 @@ def judge_records(R: Run, W, ops: list, res: dict, fresh: Dict[str, set], hist_i
                      f"CRS({rec['a']}) == CRS({rec['b']}) is {rec['r']} (reverse {rec['r_rev']}), pyproj says "
                      f"{'same' if want else 'different'} system; lazily filled _epsg: {rec['lazy']}")
             if rec["r"]:
-                hk = K1 if not rec["str_same"] else "crs-eq-hash-same-spelling"
+                # K1 is: the SAME system (pyproj) spelled differently
+                hk = "crs-eq-hash-same-spelling" if rec["str_same"] else (
+                    K1 if rec["sa"] == rec["sb"] else "crs-eq-hash-different-systems")
                 R.oracle(rec["hash_same"], hk, {**case_base, "a": rec["a"], "b": rec["b"]},
                          f"CRS({rec['a']}) == CRS({rec['b']}) but their hashes differ")
         elif k == "final":
@@ -318,6 +346,8 @@ def part_a(R: Run):
     for c in W.codes[: R.pick(6, len(W.codes))]:
         singles += W.lossless[c]
     singles += [("str", n) for n in sorted(W.lossy_names)]
+    for h, ex in sorted(W.exotic.items()):
+        singles += [sp for i, sp in enumerate(ex) if sp not in ex[:i]]
     for i, spec in enumerate(singles):
         ops = spec_ops(W, spec, 0, 0) + [["ep", 0], ["pk", 1, 0], ["eq", 0, 1], ["tr", 0, 1, True]]
         jobs.append((f"single-{i}", ops))
@@ -336,6 +366,25 @@ def part_a(R: Run):
         # a copy must carry the *instance's* lazy _epsg, not a freshly computed one
         corpus.append([["ms", 0, p4[0], W.info[p4[0]]["sys"]], ["mc", 1, 0], ["mi", 2, c0, 0], ["eq", 1, 2], ["eq", 0, 2],
                        ["pk", 3, 0], ["eq", 3, 2], ["ep", 0], ["mc", 4, 0], ["eq", 4, 2], ["eq", 1, 2]])
+    # every out-of-the-ordinary spelling of a system next to its plain horizontal code, its registered compound
+    # code and the WKT twin: accepted ones are compared all round, rejected ones are probed
+    for h, ex in sorted(W.exotic.items()):
+        ops = [["mi", 0, h, W.einfo[h]["sys"]], ["ms", 1, W.einfo[h]["wkt"], W.einfo[h]["sys"]]]
+        held = [0, 1]
+        seen = set()
+        for spec in ex:
+            if json.dumps(spec) in seen:
+                continue
+            seen.add(json.dumps(spec))
+            if W.rejected(spec):
+                ops += rejected_probe(rng, W, spec, list(reversed(held)))
+            else:
+                v = 2 + (len(seen) % 4)
+                ops += spec_ops(W, spec, v, 0)
+                if v not in held:
+                    held.append(v)
+                ops += [["eq", v, x] for x in held if x != v] + [["ep", v], ["eq", v, 0]]
+        corpus.append(ops)
     for i, ops in enumerate(corpus):
         jobs.append((f"corpus-{i}", ops))
     for i in range(R.pick(3, 12)):
@@ -974,7 +1023,152 @@ def part_b(R: Run):
 
     # bare CRS objects as values (in-process; the cache histories are part (a))
     judge_family(R, B["fam_crs"], tokenize)
+    # read-only use comes last: it fills whatever the values cache lazily
+    for fam in fams + [B["fam_crs"]]:
+        judge_use(R, fam, tokenize, R.pick(16, 60))
     part_xproc(R)
+
+
+def read_only_use(o, rng) -> List[str]:
+    """Use a value the way client code does without (meaning to) change it: every public property, every public
+    method that can be called without arguments, str/repr/bool/len/iteration, and per type the look-ups that need
+    arguments.  Errors are ignored (many calls do not apply to every member); returns what succeeded."""
+    import inspect
+
+    import numpy as np
+    from affine import Affine
+
+    from odc.geo import geom
+    from odc.geo.crs import CRS
+
+    done: List[str] = []
+
+    def attempt(label, fn):
+        try:
+            r = fn()
+            if inspect.isgenerator(r) or isinstance(r, (map, zip, filter)):
+                for _, _x in zip(range(50), r):
+                    pass
+            done.append(label)
+        except Exception:  # pylint: disable=broad-except
+            pass
+
+    t = type(o)
+    names = sorted(n for n in dir(t) if not n.startswith("_"))
+    rng.shuffle(names)
+    for name in names:
+        st = inspect.getattr_static(t, name, None)
+        if isinstance(st, property):
+            attempt(name, lambda: getattr(o, name))
+        elif not isinstance(st, (staticmethod, classmethod)) and callable(st):
+            try:
+                sig = inspect.signature(getattr(o, name))
+            except (TypeError, ValueError):
+                continue
+            if all(p.default is not inspect.Parameter.empty or p.kind in (p.VAR_POSITIONAL, p.VAR_KEYWORD)
+                   for p in sig.parameters.values()):
+                attempt(name + "()", lambda: getattr(o, name)())
+    for label, fn in (("str", lambda: str(o)), ("repr", lambda: repr(o)), ("bool", lambda: bool(o)),
+                      ("len", lambda: len(o)), ("iter", lambda: list(itertools.islice(iter(o), 20))),
+                      ("eq-self", lambda: o == o), ("eq-other", lambda: o == 5), ("hash", lambda: hash(o))):
+        attempt(label, fn)
+    crs = CRS("EPSG:3857")
+    box = geom.box(0, 0, 100, 100, "EPSG:4326")
+    roi = np.s_[0:2, 0:2]
+    with_args = {
+        "CRS": [("transformer_to_crs", lambda: o.transformer_to_crs(crs)(1.0, 2.0)), ("eq-str", lambda: o == "EPSG:4326"),
+                ("to_wkt-pretty", lambda: o.to_wkt(pretty=True))],
+        "GeoBox": [("crop", lambda: o[roi]), ("pad", lambda: o.pad(1)), ("zoom_out", lambda: o.zoom_out(2)),
+                   ("footprint", lambda: o.footprint("EPSG:4326")), ("to_crs", lambda: o.to_crs(crs)),
+                   ("overlap_roi", lambda: o.overlap_roi(o)), ("snap_to", lambda: o.snap_to(o)),
+                   ("enclosing", lambda: o.enclosing(o.extent)), ("translate_pix", lambda: o.translate_pix(1, 1)),
+                   ("wld2pix", lambda: o.wld2pix(1.0, 2.0)), ("pix2wld", lambda: o.pix2wld(1.0, 2.0)),
+                   ("mul", lambda: o * Affine.translation(1, 1)), ("and", lambda: o & o), ("or", lambda: o | o)],
+        "GCPGeoBox": [("crop", lambda: o[roi]), ("pad", lambda: o.pad(1)), ("zoom_out", lambda: o.zoom_out(2)),
+                      ("pix2wld", lambda: o.pix2wld(0.5, 0.5)), ("wld2pix", lambda: o.wld2pix(11.0, 11.0)),
+                      ("gcps", lambda: o.gcps()), ("footprint", lambda: o.footprint("EPSG:4326")),
+                      ("to_crs", lambda: o.to_crs(crs))],
+        "GridSpec": [("tile_geobox", lambda: o.tile_geobox((0, 0))), ("getitem", lambda: o[1, -2]),
+                     ("getitem2", lambda: o[3, 4].extent), ("pt2idx", lambda: o.pt2idx(1.0, 2.0)),
+                     ("tiles", lambda: list(o.tiles(geom.BoundingBox(0, 0, 100, 100, o.crs)))),
+                     ("tiles_from_geopolygon", lambda: list(o.tiles_from_geopolygon(box.to_crs(o.crs)))),
+                     ("idx_to_txy", lambda: o.tile_geobox((-1, 2)).affine)],
+        "GeoboxTiles": [("getitem", lambda: o[0, 0]), ("chunk_shape", lambda: o.chunk_shape((0, 0))),
+                        ("tiles", lambda: list(o.tiles(o.base.extent))), ("roi", lambda: o.roi[0, 0]),
+                        ("range_from_bbox", lambda: o.range_from_bbox(o.base.extent.boundingbox)),
+                        ("crop", lambda: o.crop[0:1, 0:1]), ("clip", lambda: o.clip([(0, 0)]))],
+        "Geometry": [("to_crs", lambda: o.to_crs(crs)), ("buffer", lambda: o.buffer(1.0)),
+                     ("simplify", lambda: o.simplify(0.1)), ("transform", lambda: o.transform(lambda x, y: (x, y))),
+                     ("and", lambda: o & o), ("or", lambda: o | o), ("contains", lambda: o.contains(o)),
+                     ("segmented", lambda: o.segmented(1.0)), ("interpolate", lambda: o.interpolate(0.5)),
+                     ("svg", lambda: o.svg()), ("geojson", lambda: o.geojson(a=1))],
+        "BoundingBox": [("buffered", lambda: o.buffered(1)), ("transform", lambda: o.transform(Affine.identity())),
+                        ("and", lambda: o & o), ("or", lambda: o | o), ("getitem", lambda: o[2]),
+                        ("to_crs", lambda: o.to_crs(crs)), ("map_bounds", lambda: o.map_bounds()),
+                        ("qr2sample", lambda: list(o.qr2sample(5)))],
+        "Bin1D": [("bin", lambda: o.bin(0.5)), ("getitem", lambda: o[1])],
+        "Tiles": [("getitem", lambda: o[0, 0]), ("tile_shape", lambda: o.tile_shape((0, 0))),
+                  ("locate", lambda: o.locate((0, 0))), ("crop", lambda: o.crop(np.s_[0:1, 0:1]))],
+    }
+    with_args["VariableSizedTiles"] = with_args["Tiles"]
+    for k in ("XY", "Resolution", "Index2d", "Shape2d"):
+        with_args[k] = [("map", lambda: o.map(lambda v: v)), ("getitem", lambda: o[0]), ("add", lambda: o + (1,))]
+    extra = list(with_args.get(t.__name__, []))
+    rng.shuffle(extra)
+    for label, fn in extra:
+        attempt(label, fn)
+    return done
+
+
+def judge_use(R: Run, fam: Family, tokenize, nmax: int):
+    """value semantics are stable under read-only use: token, hash, equality with clones made before the use,
+    and clones made after the use, are what they were"""
+    n = len(fam.items)
+    idx = sorted(set(list(range(min(n, nmax // 2))) + R.rng.sample(range(n), min(n, nmax // 2))))
+    tname = fam.name
+    for i in idx:
+        o = fam.items[i]
+        case = {"family": tname, "i": i, "obj": fam.desc[i], "use": True}
+        try:
+            c0 = pickle.loads(pickle.dumps(o))
+            d0 = copy.deepcopy(o)
+        except Exception:  # pylint: disable=broad-except
+            continue   # reported by the pickle oracle of the family
+        tok0, h0 = tokenize(o), guarded_hash(o)
+        eq0 = (bool(c0 == o), bool(d0 == o))
+        done = read_only_use(o, R.rng)
+        case["ops"] = done
+        R.count(f"use-ops:{tname}", len(done))
+        tok1, h1 = tokenize(o), guarded_hash(o)
+        R.oracle(tok1 == tok0, f"{tname}-token-changes-after-read-only-use", case,
+                 f"dask token of {fam.desc[i]} changed after read-only use ({', '.join(done[:12])} …)")
+        R.oracle(h1 == h0, f"{tname}-hash-changes-after-read-only-use", case,
+                 f"hash of {fam.desc[i]} changed after read-only use")
+        try:
+            c1 = pickle.loads(pickle.dumps(o))
+            d1 = copy.deepcopy(o)
+        except Exception as e:  # pylint: disable=broad-except
+            R.oracle(False, f"{tname}-pickle-raises-after-read-only-use", case,
+                     f"{fam.desc[i]} can no longer be pickled / copied after read-only use: {e!r}")
+            continue
+        toks = {tokenize(x) for x in (c0, d0, c1, d1)}
+        R.oracle(toks == {tok0}, f"{tname}-clone-token-differs-after-read-only-use", case,
+                 f"clones of {fam.desc[i]} taken before and after read-only use do not all share its dask token")
+        eq1 = (bool(c0 == o), bool(d0 == o))
+        eq2 = (bool(c1 == o), bool(d1 == o))
+        R.oracle(eq1 == eq0 and eq2 == eq0 and bool(c0 == c1) == eq0[0], f"{tname}-eq-changes-after-read-only-use",
+                 case, f"equality of {fam.desc[i]} with its clones changed after read-only use: before {eq0}, "
+                 f"old clones after {eq1}, new clones {eq2}")
+        if h0 is not None and eq0[1] and bool(d1 == d0):
+            R.oracle(guarded_hash(d1) == guarded_hash(d0), f"{tname}-clone-hash-differs-after-read-only-use", case,
+                     f"equal copies of {fam.desc[i]} taken before and after read-only use hash differently")
+
+
+def guarded_hash(o):
+    try:
+        return hash(o)
+    except TypeError:
+        return None
 
 
 XPROC = str(Path(__file__).with_name("c19_xproc.py"))
